@@ -10,7 +10,7 @@ the specification (`bad:` = success reported for a file that is not exactly the 
 leaves a file under the name, a success without an fsync after the last write, …).
 
     prog
-    persist  kind=seg|snp id=N data=SPEC prior=absent|SPEC chunks=-|n,n,… fault=none|wfail:K|cancel:K|syncfail|lockbusy|noent
+    persist  kind=seg|snp id=N data=SPEC prior=absent|SPEC chunks=-|n,n,… fault=none|wfail:K|cancel:K|syncfail|closefail|lockbusy|noent
     tpersist (same; the real run was traced with strace, the result carries `trace=`)
     remove   kind=… id=N prior=absent|SPEC lock=none|shared|exclusive
     pid      steps=A:lock,B:lock,A:unlock,…      (tpid: traced)   Lock/Unlock programs in the several-actor world
@@ -114,7 +114,8 @@ def mkScn (ws : List String) : Option Scn := do
     else if lock == "shared" then .shared else .none
   let noent := fault == "noent"
   let env : Env := { name := id, content := content, chunks := chunks, writerStop := stop,
-                     openFault := noent, otherLock := other, syncFault := fault == "syncfail" }
+                     openFault := noent, otherLock := other, syncFault := fault == "syncfail",
+                     closeFault := fault == "closefail" }
   let st : FSState := { dir := fun n =>
       if n = id then prior.map (fun b => ⟨b, some b⟩)
       else if n = id + 1 ∧ !noent then some ⟨bystander, some bystander⟩ else none }
@@ -168,8 +169,8 @@ def judgeRemove (s : Scn) (impl : String) : String :=
 
 
 /-! ## Lock / Unlock / OpenWriter / Load in the several-actor world -/
-open Bluge.FS.World in
 section WorldDrv
+open Bluge.FS.World
 
 /-- the pid line (its digits are the harness's business: it prints `pid` when the file holds its own pid line) -/
 def pidData : Bytes := [0x50]
@@ -312,19 +313,28 @@ def loadStep (mm traced : Bool) (r : LoadRun) (st : String) : LoadRun :=
     fin x.2 (okErr x.1) ev r.loaded
   else fin r.w "bad-step" [] r.loaded
 
-/-- specification on the implementation's own results: while a reader holds the item (it loaded it and has not
-run the closer), a Remove / Persist by somebody else must fail and leave the bytes alone -/
-def judgeLoad (mm : Bool) (w0 : W) (steps : List String) (impl : String) : String :=
+/-- specification on the implementation's own results (the readers' holds are counted from the step names and
+the implementation's answers, not from the generated programs): while a reader holds the item — it loaded it and
+has not run the closer — a Remove / Persist by somebody else must fail and leave the bytes alone; once every
+closer has run, a Remove must go through (the closer released the handle and its lock) -/
+def judgeLoad (steps : List String) (impl : String) (file0 : String) : String :=
   let is := implSteps impl
-  let rec go (r : LoadRun) (prev : String) : List String → List (String × String) → String
+  let rec go (held : List String) (prev : String) : List String → List (String × String) → String
     | [], _ => "ok"
     | _, [] => "ok"
     | st :: rest, (res, file) :: irest =>
       let disturbing := st == "remove" || st == "persist"
-      if disturbing && !r.loaded.isEmpty && res == "ok" then "bad:open-reader-disturbed"
-      else if disturbing && !r.loaded.isEmpty && file != prev && file != "-" then "bad:refused-but-file-changed"
-      else go (loadStep mm false r st) file rest irest
-  go { w := w0 } (fileNow w0) steps is
+      if disturbing && !held.isEmpty && res == "ok" then "bad:open-reader-disturbed"
+      else if disturbing && !held.isEmpty && file != prev && file != "-" then "bad:refused-but-file-changed"
+      else if disturbing && held.isEmpty && res != "ok" then "bad:closer-did-not-release"
+      else
+        let held' :=
+          if (st == "load" || st == "load2") && res.startsWith "ok" then st :: held
+          else if st == "close" then held.erase "load"
+          else if st == "close2" then held.erase "load2"
+          else held
+        go held' file rest irest
+  go [] file0 steps is
 
 end WorldDrv
 
@@ -378,7 +388,7 @@ def c13step (_ : Unit) (op : String) (impl : String) : Unit × String :=
         let r := steps.foldl (loadStep mm traced) ({ w := w0 } : LoadRun)
         let m := ",".intercalate r.outs ++ (if traced then " trace=" ++ ",".intercalate r.evs else "")
         let blocked := (steps.zip r.outs).any fun (st, o) => (st == "remove" || st == "persist") && o.startsWith "err/"
-        (m, judgeLoad mm w0 steps impl ++ " br=load,load-" ++ (if mm then "mm" else "nm") ++ (if blocked then ",load-blocks-remove" else "") ++
+        (m, judgeLoad steps impl (fileNow w0) ++ " br=load,load-" ++ (if mm then "mm" else "nm") ++ (if blocked then ",load-blocks-remove" else "") ++
           (if traced then ",traced-load" else ""))
     | "case" :: _ => ("case", "na")
     | _ => ("bad-op", "na")
